@@ -75,6 +75,7 @@
 //!
 //! For further details on how to use the cache, see the [LruCache] struct.
 
+use std::alloc::Layout;
 use std::borrow::Borrow;
 use std::fmt::{self, Debug, Formatter};
 use std::hash::{BuildHasher, Hash};
@@ -693,12 +694,34 @@ where
     fn try_reallocate(&mut self, new_capacity: usize) -> Result<(), TryReserveError> {
         let hasher = make_hasher(&self.hash_builder);
         let mut old_table = RawTable::try_with_capacity(new_capacity)?;
+
+        // Hashing runs user code, which may panic. Compute all hashes while
+        // the cache is still untouched, so that unwinding cannot leave
+        // entries half-moved with links into the freed old table.
+
+        let len = self.table.len();
+        let mut hashes = Vec::new();
+        hashes.try_reserve_exact(len)
+            .map_err(|_| match Layout::array::<u64>(len) {
+                Ok(layout) => TryReserveError::AllocError { layout },
+                Err(_) => TryReserveError::CapacityOverflow
+            })?;
+
+        unsafe {
+            for bucket in self.table.iter() {
+                hashes.push(hasher(bucket.as_ref()));
+            }
+        }
+
         mem::swap(&mut self.table, &mut old_table);
 
-        for entry in old_table.into_iter() {
+        // RawTable::iter and RawTable::into_iter visit buckets in the same
+        // order, so the hashes line up with the entries.
+
+        for (entry, hash) in old_table.into_iter().zip(hashes) {
             let mut prev_entry = entry.prev;
             let mut next_entry = entry.next;
-            let bucket = self.table.insert(hasher(&entry), entry, &hasher);
+            let bucket = self.table.insert(hash, entry, &hasher);
             let entry_ptr = EntryPtr::new(bucket.as_ptr());
             prev_entry.get_mut().next = entry_ptr;
             next_entry.get_mut().prev = entry_ptr;
